@@ -81,8 +81,8 @@ pub fn mp_tok(mp: Option<usize>) -> String {
 pub fn scale_down(xs: &[&str], s: u32) -> Vec<String> {
     xs.iter()
         .map(|t| {
-            if *t == "_" {
-                "_".to_string()
+            if *t == "_" || t.ends_with("inf") {
+                t.to_string()
             } else {
                 let (p, q) = match t.split_once('/') {
                     Some((p, q)) => (p.to_string(), q.parse::<u64>().unwrap_or(1)),
@@ -115,7 +115,7 @@ pub fn pow2_str(s: u32) -> String {
 pub fn scale_down_big(xs: &[&str], s: u32) -> Vec<String> {
     xs.iter()
         .map(|t| {
-            if *t == "_" || *t == "0" {
+            if *t == "_" || *t == "0" || t.ends_with("inf") {
                 t.to_string()
             } else {
                 let (p, q) = match t.split_once('/') {
@@ -161,8 +161,8 @@ pub fn add_scaled(lines: &mut Vec<String>, every: usize, shifts: &[u32], keys: &
 pub fn level_up(xs: &[&str], level: i64) -> Vec<String> {
     xs.iter()
         .map(|t| {
-            if *t == "_" {
-                "_".to_string()
+            if *t == "_" || t.ends_with("inf") {
+                t.to_string()
             } else {
                 let (p, q) = match t.split_once('/') {
                     Some((p, q)) => (p.parse::<i64>().unwrap_or(0), q.parse::<i64>().unwrap_or(1)),
